@@ -157,7 +157,13 @@ class CutScn:
 
                 S.user(snd, "sender")
             if P.get("callback") is not None:
-                chans[P["callback"]].setcallback(cbcalls.append, endmarker=END)
+
+                def cbf(x):
+                    cbcalls.append(x)
+                    if x == END and P.get("cb_raises_end"):
+                        raise ValueError("this callback fails on its endmarker")
+
+                chans[P["callback"]].setcallback(cbf, endmarker=END)
             if inflight is not None:
 
                 def infl():
@@ -329,6 +335,9 @@ BASES = [
     {"items": [(0, 5), (1, 5), (0, 0), (1, 40)], "extra": 1, "closes": [1], "block": True, "receivers": {0: 2}, "waiters": {0: 1, 1: 1}, "callback": 1, "inflight": False},
     # D: the survivor keeps sending small items while the peer dies (a send fails before the receiver thread sees EOF)
     {"items": [(0, 5), (1, 5)], "extra": 1, "closes": [], "block": True, "receivers": {1: 1}, "waiters": {0: 1}, "callback": None, "inflight": False, "sender": 0},
+    # E: a callback that FAILS on its endmarker sits on the channel with the lowest id; a receiver and a
+    # waitclose caller are blocked on a later channel
+    {"items": [(0, 5), (1, 5)], "extra": 1, "closes": [], "block": True, "receivers": {1: 1}, "waiters": {1: 1}, "callback": 0, "inflight": False, "cb_raises_end": True},
     # C: nothing but an in-flight remote_exec and idle channels, two waitclose callers
     {"items": [(1, 5)], "extra": 1, "closes": [], "block": True, "receivers": {1: 1}, "waiters": {0: 2}, "callback": None, "inflight": True},
 ]
@@ -347,7 +356,7 @@ def run(tier: str, only=None) -> int:
     transports = ("popen", "socket", "via")
     for bi, base in enumerate(BASES):
         for tr in transports:
-            name = f"cut/{'ABDC'[bi]}:{tr}"
+            name = f"cut/{'ABDEC'[bi]}:{tr}"
             if only and only not in name:
                 continue
             if tier == "quick" and tr != "popen" and bi >= 2:
